@@ -35,9 +35,11 @@ ASSUMPTIONS = [
 FLOORS = {"pairs:verdict-match": 0.2, "pairs:verdict-nomatch": 0.2, "pairs:has-capture": 0.3, "pairs:has-seq": 0.2}
 
 CLASS_NAMES = ["ASTNode", *[c for c in M.CLASS_NAMES if c != "BombNode"]]
-ALL_FIELDS = sorted({f.name for c in M.TABLE for f in c.fields if c.name != "BombNode"})
+# (`children` is a field of one class only; on every other class the name is the convenience property, which
+# builds a new list on every access - "the very object matched" has no meaning for it: kept out of raw patterns)
+ALL_FIELDS = sorted({f.name for c in M.TABLE for f in c.fields if c.name != "BombNode"} - {"children"})
 SEQ_OK_FIELDS = sorted({f.name for c in M.TABLE for f in c.fields
-                        if c.name != "BombNode" and (f.is_child or f.kind in ("int", "optint", "tint"))})
+                        if c.name != "BombNode" and (f.is_child or f.kind in ("int", "optint", "tint"))} - {"children"})
 REGEXES = ["", ".*", "\\d+", "a", "1", "True", "None", "Color", "\\(", "[ab]+", "x y", "-?\\d", "b", "a b", "ab", "x y$", "a b", "x y", "a  b"]
 
 
@@ -324,6 +326,10 @@ def _same_caps(got: dict, exp: dict) -> str | None:
         if isinstance(e, tuple) and not is_node(e):
             if not (isinstance(g, tuple) and len(g) == len(e) and all(x is y for x, y in zip(g, e))):
                 return f"capture {k}: not the tuple of the very elements ({type(g).__name__})"
+        elif isinstance(e, list) and isinstance(g, list):
+            # only the inherited `children` property yields a list, a new one per access: its elements decide
+            if not (len(g) == len(e) and all(x is y for x, y in zip(g, e))):
+                return f"capture {k}: the list does not hold the very children"
         elif g is not e:
             return f"capture {k}: not the very object matched ({type(g).__name__} vs {type(e).__name__})"
     return None
